@@ -922,6 +922,19 @@ def direct_extras(R, rng, tier):
                     viol('filter', f'x.filter({nm}) keeps {list(zip(r.keys(), r.values()))} of {list(zip(ks, fl))} in {alg!r}, expected {want}', keys=ks, values=fl, fn=nm)
             except Exception as e:  # noqa
                 viol('filter-raises', f'x.filter({nm}) raised {type(e).__name__}: {e}'[:300], keys=ks, values=fl, fn=nm)
+        # map over an ndarray-backed array of elements: the function gets the coefficients of ONE blade at a time
+        arr2 = np.array([[float(rng.randint(-9, 9)) for _ in range(5)] for _ in ks])
+        xm = MultiVector.fromkeysvalues(alg, tuple(ks), arr2.copy())
+        for nm, f in (('v - v.mean()', lambda v: v - v.mean()), ('v / abs(v).max()', lambda v: v / (np.abs(v).max() or 1.0)), ('cumsum', np.cumsum), ('2 * v', lambda v: 2 * v)):
+            R.count('extras=map-per-blade'); R.case(('extras-map-blade', it, nm), True)
+            try:
+                r = xm.map(f)
+                want = [f(arr2[i]) for i in range(len(ks))]
+                if list(r.keys()) != ks or not all(np.allclose(np.asarray(g_, dtype=float), w_) for g_, w_ in zip(r.values(), want)):
+                    viol('map', f'x.map({nm}) on an ndarray-backed multivector with {arr2.shape[1]} elements per blade (keys {ks}) in {alg!r} gives {[np.asarray(g_).tolist() for g_ in r.values()]}, '
+                                f'the function applied to the coefficients of each blade gives {[w_.tolist() for w_ in want]}', keys=ks, values=arr2.tolist(), fn=nm)
+            except Exception as e:  # noqa
+                viol('map-raises', f'x.map({nm}) on an ndarray-backed multivector raised {type(e).__name__}: {e}'[:300], keys=ks, fn=nm)
         # asfullmv of ndarray-backed multivectors (1-D: one number per blade; 2-D: three numbers per blade)
         for shape in ((), (3,)):
             arr = np.array([[float(rng.randint(-9, 9)) for _ in range(int(np.prod(shape or (1,))))] for _ in ks]).reshape((len(ks),) + shape)
